@@ -130,8 +130,7 @@ def run(R):
     import concurrent.futures
     R.rule = RULE
     R.require("transcript-equal", "real-cli-equal", "import")
-    R.assumptions = ["reference interpreter: /venv/bin/python (3.12)", "sort=False key order is not compared (a plain dict is "
-                     "unordered by definition on 2.7)", "float() spellings whose grammar differs by language version "
+    R.assumptions = ["reference interpreter: /venv/bin/python (3.12)", "float() spellings whose grammar differs by language version "
                      "(underscores) are not generated", "error MESSAGES are compared only where the CLI prints them"]
     P = R.P
     interps = interpreters()
@@ -191,6 +190,14 @@ def run(R):
                 if a == b:
                     continue
                 item = c[sec][i]
+                if sec == "construct" and a.get("korder") != b.get("korder"):
+                    # iteration order of the unsorted as_json() documents, judged apart from everything else
+                    same_keys = [sorted(x) for x in a.get("korder") or []] == [sorted(x) for x in b.get("korder") or []]
+                    P.violation("transcript-equal", "C20:%s:as_json:unsorted-%s-differs" % (tag, "key-order" if same_keys else "key-set"),
+                                {"interpreter": name, "section": sec, "item": item}, reference=a.get("korder"), observed=b.get("korder"))
+                    a, b = dict(a, korder=None), dict(b, korder=None)
+                    if a == b:
+                        continue
                 field = first_diff(a, b)
                 key = "C20:%s:%s:%s-differs" % (tag, sec, field)
                 if tag == "py2.7" and non_ascii(item) and sec in ("cli", "ask"):
